@@ -199,6 +199,7 @@ func TestC17(t *testing.T) {
 		W := rapid.Int64Range(2, 6).Draw(rt, "window")
 		C := rapid.Int64Range(2, 5).Draw(rt, "check")
 		w := newC07World(c, W, C)
+		w.proofType = rapid.SampledFrom([]int64{0, 0, 0, 1, 2, -1}).Draw(rt, "proofType")
 		nProv := rapid.IntRange(2, 5).Draw(rt, "providers")
 		for i := 2; i < nProv; i++ {
 			p := chain.Acc(10 + i)
@@ -210,8 +211,16 @@ func TestC17(t *testing.T) {
 			p.AttestFormSize = rapid.Int64Range(1, 2).Draw(rt, "formSize")
 			p.AttestMinToPass = rapid.Int64Range(1, p.AttestFormSize).Draw(rt, "minToPass")
 		})
-		for _, o := range w.owners {
+		// in half of the worlds the third owner never buys a plan: it can only post files paid once
+		planless := rapid.Bool().Draw(rt, "thirdOwnerWithoutPlan")
+		for i, o := range w.owners {
+			if planless && i == 2 {
+				continue
+			}
 			w.buyStorage(o, o.Bech, 30, 2_000_000_000, "")
+		}
+		if planless {
+			rec.Count("worlds-with-an-owner-that-never-bought-a-plan")
 		}
 		removedFromShared := false
 		fail := func(sig, msg string) {
@@ -253,7 +262,7 @@ func TestC17(t *testing.T) {
 				content[0] = byte(nFile % 7) // few distinct contents: the same merkle gets posted by several owners / at several heights
 				f := buildFile(content, 1024)
 				exp := int64(0)
-				if rapid.IntRange(0, 5).Draw(rt, "payOnce") == 0 {
+				if rapid.IntRange(0, 5).Draw(rt, "payOnce") == 0 || (planless && o.Bech == w.owners[2].Bech && rapid.IntRange(0, 3).Draw(rt, "planlessPaysOnce") > 0) {
 					exp = w.f.Height() + 30000
 				}
 				fail(w.post(o, f.Merkle, f.FileSize, rapid.Int64Range(1, 4).Draw(rt, "maxProofs"), exp, f))
